@@ -137,6 +137,7 @@ N_DIR = 3
 def check_journal_order(ctx):
     pat = r'^journal::recovery::recover_journals$|^recover_journals$'
     ob = ctx.ob('journals/order', 'recover_journals: active = the *.jnl file with the highest id; sealed = all other *.jnl files in ascending id order; other files ignored', [pat])
+    N_DIR = 3 if ctx.tier == 'quick' else 4
     ids = [z3.BitVec(f'file{i}.id', 64) for i in range(N_DIR)]
     isj = [z3.Bool(f'file{i}.is_jnl') for i in range(N_DIR)]
 
@@ -393,7 +394,9 @@ def run(ctx):
     # the two neighbouring properties this one rests on are decided here as well (same obligations as C03 / C10):
     # a torn journal tail is cut back to the last complete unit and what is appended afterwards is read back; a sealed journal is unlinked only when nothing in it is needed
     from . import c03, c10
-    c03.check_cuts(ctx, c03.SHAPES_QUICK[0], 0, step=1 if ctx.tier == 'thorough' else 1)
+    c03.check_cuts(ctx, c03.SHAPES_QUICK[0], 0)
+    if ctx.tier == 'thorough':
+        c03.check_cuts(ctx, c03.SHAPES_QUICK[1], 1)
     c10.check_maintenance(ctx, confirm=lambda: native_crash(ctx))
     ctx.assumptions += [
         'F1/F2: BufWriter::flush hands all buffered bytes to the OS in order; a process crash keeps what was handed to the OS (power loss: C09)',
